@@ -12,11 +12,13 @@
 (*   oneline     block IF               as  single-line IF                    *)
 (*   addstep1    FOR without STEP       as  FOR ... STEP 1                    *)
 (*   wrapbody    loop body              as  IF -1 THEN body END IF            *)
+(*   colonline   a loop whose body consists of simple statements and such     *)
+(*               loops, written on ONE line with colons                        *)
 (* New statements get ids derived from the site id (unique: ids * 100 + k).   *)
 (***************************************************************************)
 EXTENDS Core
 
-Rules == {"for2while", "while2do", "until2not", "select2if", "oneline", "addstep1", "wrapbody"}
+Rules == {"for2while", "while2do", "until2not", "select2if", "oneline", "addstep1", "wrapbody", "colonline"}
 
 Lit(t, v) == [k |-> "lit", t |-> t, v |-> v]
 Var(n, t) == [k |-> "var", n |-> n, t |-> t]
@@ -34,6 +36,13 @@ NonZeroLit(e) == (e.k = "lit" /\ e.v # 0) \/ (e.k = "un" /\ e.e.k = "lit" /\ e.e
 
 Simple(s) == s.k \in {"let", "print", "goto", "gosub", "return", "read", "end"}
 
+Loops == {"for", "while", "do"}
+RECURSIVE Colonable(_), AllColonable(_)
+Colonable(x) == (x.k \in {"let", "print", "read"}) \/ (x.k \in Loops /\ AllColonable(x.body))
+AllColonable(b) == \A j9 \in 1..Len(b) : Colonable(b[j9])
+RECURSIVE MarkColon(_)
+MarkColon(x) == IF x.k \in Loops THEN [x EXCEPT !.body = [j8 \in 1..Len(x.body) |-> MarkColon(x.body[j8])]] @@ [colon |-> TRUE] ELSE x
+
 Applicable(rule, s) ==
   CASE rule = "for2while" -> s.k = "for" /\ s.v.k = "var" /\ HasKnownType(s.step) /\ KnownType(s.step) # "$"
     [] rule = "while2do" -> s.k = "while"
@@ -44,6 +53,7 @@ Applicable(rule, s) ==
                            /\ \A j2 \in 1..Len(s.els) : Simple(s.els[j2])
     [] rule = "addstep1" -> s.k = "for" /\ ~s.hasstep
     [] rule = "wrapbody" -> s.k \in {"for", "while", "do"}
+    [] rule = "colonline" -> s.k \in Loops /\ ~("colon" \in DOMAIN s) /\ Len(s.body) >= 1 /\ AllColonable(s.body)
 
 \* names of the hidden variables of site s
 HidL(s) == "ZL" \o ToString(s.id)
@@ -89,6 +99,7 @@ Rw(rule, s) ==
                   els |-> s.els, hasels |-> s.hasels] >>
     [] rule = "oneline" -> << s @@ [oneline |-> TRUE] >>
     [] rule = "addstep1" -> << [s EXCEPT !.hasstep = TRUE, !.step = Lit("I", 1)] >>
+    [] rule = "colonline" -> << MarkColon(s) >>
     [] rule = "wrapbody" ->
          << [s EXCEPT !.body = << [k |-> "if", id |-> s.id * 100 + 9,
                                    arms |-> << [c |-> [k |-> "un", op |-> "neg", e |-> Lit("I", 1)], body |-> s.body] >>,
